@@ -351,10 +351,25 @@ func (e *Engine) set(c *Config, f *Frame, v ssa.Value, val Val) {
 		}
 	}
 	if iv, ok := val.(IntV); ok && iv.F.isConst() && f.Base != 0 && e.indexLike(f.Fn, v) {
-		if dv := c.Dist[f.Base]; dv.Exact {
+		base := f.Base
+		if sub := e.subSliceBase(f.Fn, v); sub != nil {
+			// the value indexes a sub-slice (for i := range data[start:]): it counts from that slice's start
+			base = 0
+			if sv, ok := f.Env[sub].(SliceV); ok {
+				lo := c.normPos(sv.Lo)
+				if len(lo.C) == 1 && lo.K == 0 {
+					for sy, co := range lo.C {
+						if co == 1 && sy != END {
+							base = sy
+						}
+					}
+				}
+			}
+		}
+		if dv := c.Dist[base]; base != 0 && dv.Exact {
 			nd := dv.D - int(iv.F.K)
 			if nd >= -4 && nd < c.Cap && iv.F.K >= 0 {
-				val = IntV{symForm(c.markAt(nd)).add(symForm(f.Base), -1)}
+				val = IntV{symForm(c.markAt(nd)).add(symForm(base), -1)}
 			}
 		}
 	}
@@ -1602,4 +1617,141 @@ func sizeOf(t types.Type) int {
 		return 4
 	}
 	return 8
+}
+
+
+// subSliceBase: for an integer value that indexes, or is compared with the length of, exactly one derived slice
+// `data[lo:…]` (and never the input itself), that slice. Propagated through phis and ±constant.
+func (e *Engine) subSliceBase(fn *ssa.Function, v ssa.Value) ssa.Value {
+	if e.subBase == nil {
+		e.subBase = map[*ssa.Function]map[ssa.Value]ssa.Value{}
+	}
+	m, ok := e.subBase[fn]
+	if !ok {
+		m = computeSubBase(fn)
+		e.subBase[fn] = m
+	}
+	return m[v]
+}
+
+func computeSubBase(fn *ssa.Function) map[ssa.Value]ssa.Value {
+	type slot struct {
+		base     ssa.Value
+		conflict bool
+	}
+	m := map[ssa.Value]*slot{}
+	changed := true
+	put := func(v ssa.Value, base ssa.Value, conflict bool) {
+		if v == nil || !isIntegerType(v.Type()) {
+			return
+		}
+		if _, isC := v.(*ssa.Const); isC {
+			return
+		}
+		sl := m[v]
+		if sl == nil {
+			m[v] = &slot{base, conflict}
+			changed = true
+			return
+		}
+		if conflict && !sl.conflict {
+			sl.conflict = true
+			changed = true
+		}
+		if base != nil && sl.base != base {
+			if sl.base == nil {
+				sl.base = base
+			} else if !sl.conflict {
+				sl.conflict = true
+			} else {
+				return
+			}
+			changed = true
+		}
+	}
+	lenOf := func(v ssa.Value) (ssa.Value, bool) {
+		if call, ok := v.(*ssa.Call); ok {
+			if b, ok := call.Call.Value.(*ssa.Builtin); ok && b.Name() == "len" && isByteSlice(call.Call.Args[0].Type()) {
+				return call.Call.Args[0], true
+			}
+		}
+		return nil, false
+	}
+	derived := func(x ssa.Value) bool {
+		sl, ok := x.(*ssa.Slice)
+		return ok && sl.Low != nil
+	}
+	for changed {
+		changed = false
+		for _, b := range fn.Blocks {
+			for _, ins := range b.Instrs {
+				switch ins := ins.(type) {
+				case *ssa.IndexAddr:
+					if isByteSlice(ins.X.Type()) {
+						if derived(ins.X) {
+							put(ins.Index, ins.X, false)
+						} else {
+							put(ins.Index, nil, true)
+						}
+					}
+				case *ssa.Slice:
+					if isByteSlice(ins.X.Type()) {
+						for _, bnd := range []ssa.Value{ins.Low, ins.High} {
+							if bnd == nil {
+								continue
+							}
+							if derived(ins.X) {
+								put(bnd, ins.X, false)
+							} else {
+								put(bnd, nil, true)
+							}
+						}
+					}
+				case *ssa.BinOp:
+					if isCmp(ins.Op) {
+						for _, pr := range [][2]ssa.Value{{ins.X, ins.Y}, {ins.Y, ins.X}} {
+							if of, ok := lenOf(pr[0]); ok {
+								if derived(of) {
+									put(pr[1], of, false)
+								} else {
+									put(pr[1], nil, true)
+								}
+							}
+						}
+					}
+					if ins.Op == token.ADD || ins.Op == token.SUB {
+						if _, isC := ins.Y.(*ssa.Const); isC {
+							if sl := m[ins]; sl != nil {
+								put(ins.X, sl.base, sl.conflict)
+							}
+							if sl := m[ins.X]; sl != nil {
+								put(ins, sl.base, sl.conflict)
+							}
+						} else {
+							// start + i: i keeps its base, the sum is a position of the input
+							put(ins, nil, true)
+						}
+					}
+				case *ssa.Phi:
+					if sl := m[ins]; sl != nil {
+						for _, ed := range ins.Edges {
+							put(ed, sl.base, sl.conflict)
+						}
+					}
+					for _, ed := range ins.Edges {
+						if sl := m[ed]; sl != nil {
+							put(ins, sl.base, sl.conflict)
+						}
+					}
+				}
+			}
+		}
+	}
+	out := map[ssa.Value]ssa.Value{}
+	for v, sl := range m {
+		if !sl.conflict && sl.base != nil {
+			out[v] = sl.base
+		}
+	}
+	return out
 }
